@@ -21,19 +21,19 @@ pub enum S {
     False,
     Lit(String),
     Var(String),
-    Lam { name: String, implicit: bool, ann: Option<Box<S>>, body: Box<S> },
+    Lam { name: String, implicit: bool, ann: Option<Rc<S>>, body: Rc<S> },
     // name None = non-dependent arrow
-    Pi { name: Option<String>, implicit: bool, dom: Box<S>, cod: Box<S> },
-    App(Box<S>, Box<S>),
-    Let { name: String, ann: Option<Box<S>>, def: Box<S>, body: Box<S> },
-    Neg(Box<S>),
-    Bin(Op, Box<S>, Box<S>),
-    If(Box<S>, Box<S>, Box<S>),
-    Paren(Box<S>),
+    Pi { name: Option<String>, implicit: bool, dom: Rc<S>, cod: Rc<S> },
+    App(Rc<S>, Rc<S>),
+    Let { name: String, ann: Option<Rc<S>>, def: Rc<S>, body: Rc<S> },
+    Neg(Rc<S>),
+    Bin(Op, Rc<S>, Rc<S>),
+    If(Rc<S>, Rc<S>, Rc<S>),
+    Paren(Rc<S>),
 }
 
-fn bx(s: S) -> Box<S> {
-    Box::new(s)
+pub fn bx(s: S) -> Rc<S> {
+    Rc::new(s)
 }
 
 // ------------------------------------------------------------------------------------------------
@@ -371,7 +371,7 @@ impl Resolver {
             }
             S::Let { .. } => {
                 // Collect the group: the body-spine of lets, stopping at a parenthesised body.
-                let mut defs: Vec<(&String, &Option<Box<S>>, &S)> = vec![];
+                let mut defs: Vec<(&String, &Option<Rc<S>>, &S)> = vec![];
                 let mut cur: &S = s;
                 let body: &S;
                 loop {
